@@ -383,14 +383,23 @@ class World:
         if any(not self.nodes[k]['reported'] for k in steps):
             return 'opaque'
         out = []
+        self._untouched = []
         for p in rec['paths']:
             pos = ('path', p)
             exact = True         # every step so far matched the statement verbatim and unambiguously
             verbatim = True
+            untouched = True     # ... and no step was aimed at it, at anything beneath it or at anything around it
             for k in steps:
                 al = self.nodes[k]['al']
                 if pos[0] == 'path':
                     c = al.stmt.get(pos[1])
+                    aimed = self.nodes[k].get('aimed')
+                    if aimed is None or c is None or c[0] != 'same' or c[2] \
+                            or any(beneath_or_at(pos[1], a) or beneath_or_at(a, pos[1]) for a in aimed):
+                        untouched = False
+                else:
+                    untouched = False
+                if pos[0] == 'path':
                     if c is not None and c[0] == 'same' and c[2]:
                         exact = False
                     if c is not None and c[0] == 'inside':
@@ -400,6 +409,7 @@ class World:
                         continue
                 pos = al.push(pos)
             out.append((pos, exact, verbatim))
+            self._untouched.append(untouched and exact and verbatim and pos[0] == 'path')
         return out
 
     def do_forward(self, op):
@@ -414,6 +424,7 @@ class World:
         from fpy2.strategies import TransformReferenceError, StmtCursor, BlockCursor, ExprCursor
         f = self.nodes[ti]['fn']
         model = self.model_image(rec, ti)
+        untouched = list(self._untouched) if not isinstance(model, str) else []
         try:
             res = f.forward(rec['cursor'])
             raised = None
@@ -469,6 +480,15 @@ class World:
                 self.vio('forward-unrelated', {'why': 'the answer includes the image of another statement', 'other': repr(q),
                                                'its_image': repr(qpos[1]), 'result': repr(rp), 'cursor': repr(sorted(members))},
                          where_kind=how)
+                return res
+        # (d) statements that every step kept verbatim and that no step was aimed at (nor at anything
+        #     beneath or around them) are named afterwards exactly as before: what a pass inserted next
+        #     to them belongs to the site it was aimed at
+        if untouched and all(untouched):
+            want = {pos[1] for pos, _, _ in model}
+            if R != want:
+                self.vio('forward-unrelated', {'why': 'statements no pass touched or was aimed at: the answer is not exactly their images',
+                                               'images': repr(sorted(want)), 'result': repr(rp)}, where_kind=how)
                 return res
         # (b) per member: a survivor must be in the answer; what replaced a rewritten one bounds it
         spans = []
@@ -673,6 +693,14 @@ class World:
             if wk == 'cursor':
                 self.vio('cursor-aim-silently-did-nothing', {'where': repr(cursor_pos(where))[:120], 'k': k}, strategy=name, where_kind=wk)
         child = self.add_node(ni, g, f'{name}:{wk}')
+        if self.nodes[child]['parent'] == ni and 'aimed' not in self.nodes[child]:
+            # the statements this step was aimed at (None: unknown), for rule (d) of the forward oracle
+            if wk == 'idx':
+                self.nodes[child]['aimed'] = list(site_targets[where])
+            elif wk == 'none':
+                self.nodes[child]['aimed'] = [p for t in site_targets for p in t]
+            elif wk == 'cursor' and allowed is not None:
+                self.nodes[child]['aimed'] = list(allowed)
         al = self.nodes[child]['al']
         changed = M.changed_old_paths(al)
         if allowed is not None:
